@@ -11,8 +11,8 @@ Theorem C10_source_is_done : same_paths (fn_paths conc_Future_IsDone) is_done_pa
 Theorem C10_source_is_cancelled : same_paths (fn_paths conc_Future_IsCancelled) is_cancelled_paths = true. Proof. exact is_cancelled_actions. Qed.
 Theorem C10_source_new_future : same_paths (fn_paths conc_NewFuture) new_future_paths = true. Proof. exact new_future_actions. Qed.
 Theorem C10_source_builtins :
-  same_paths (fn_paths conc_Load_lit4) [[own "IsCancelled"]] = true /\
-  same_paths (fn_paths conc_Load_lit5) [[own "IsDone"]] = true /\
+  same_paths (fn_paths conc_Load_lit4) is_cancelled_paths = true /\
+  same_paths (fn_paths conc_Load_lit5) is_done_paths = true /\
   same_paths (fn_paths conc_future_cancel) [[own "Cancel"]] = true.
 Proof. exact status_builtins_actions. Qed.
 
